@@ -200,3 +200,62 @@ def truncateCascade (fks : List FkDecl) (tables : List Nat) (fuel : Nat) (db : D
   | .ok s => .ok (emptyTables db s)
 
 end VibeProof.Dml
+
+/-! ### the repaired recursion (delete/integrity.rs since the visited-set repair)
+
+`check_no_child_references_visiting` carries `in_progress`, the (table, row) pairs whose referrers
+are being (or have been) handled by this call tree; a pair met again is skipped.  `in_progress`
+only grows.  The executor starts every selected row with an empty list and afterwards deletes the
+selected rows that are still there, found again by value (`deleteVictims`). -/
+namespace VibeProof.Dml
+open VibeProof
+
+abbrev Seen := List (Nat × Row)
+
+def runVictimsV (rec : Seen → Db → Row → Except CErr (Db × Seen)) : List Row → Seen → Db → Except CErr (Db × Seen)
+  | [], seen, db => .ok (db, seen)
+  | v :: vs, seen, db =>
+    match rec seen db v with
+    | .error e => .error e
+    | .ok (db', seen') => runVictimsV rec vs seen' db'
+
+def deleteVictimsV (rec : Seen → Db → Row → Except CErr (Db × Seen)) (seen : Seen) (db : Db) (t : Nat)
+    (victims : List Row) : Except CErr (Db × Seen) :=
+  match runVictimsV rec victims seen db with
+  | .error e => .error e
+  | .ok (db1, seen1) => .ok (db1.set t ((db1 t).filter (fun r => !(victims.contains r))), seen1)
+
+def applyActV (rec : Nat → Seen → Db → Row → Except CErr (Db × Seen)) (row : Row) (d : FkDecl) (seen : Seen) (db : Db) :
+    Except CErr (Db × Seen) :=
+  let k := keyOf d.pcols row
+  match d.onDelete with
+  | .noAction => .error .reject
+  | .cascade => deleteVictimsV (rec d.child) seen db d.child ((db d.child).filter (d.fk.refers k))
+  | .setNull => .ok (db.set d.child ((db d.child).map (fun c => if d.fk.refers k c then d.fk.nullCols c else c)), seen)
+
+def runActsV (rec : Nat → Seen → Db → Row → Except CErr (Db × Seen)) (row : Row) :
+    List FkDecl → Seen → Db → Except CErr (Db × Seen)
+  | [], seen, db => .ok (db, seen)
+  | d :: ds, seen, db =>
+    match applyActV rec row d seen db with
+    | .error e => .error e
+    | .ok (db', seen') => runActsV rec row ds seen' db'
+
+/-- `check_no_child_references_visiting` -/
+def checkRowV (fks : List FkDecl) : Nat → Seen → Db → Nat → Row → Except CErr (Db × Seen)
+  | 0, _, _, _, _ => .error .fuel
+  | f + 1, seen, db, t, row =>
+    if seen.contains (t, row) then .ok (db, seen)
+    else
+      let acts := fks.filter (fun d => d.parent == t && (db d.child).any (d.fk.refers (keyOf d.pcols row)))
+      runActsV (fun child seen db v => checkRowV fks f seen db child v) row acts ((t, row) :: seen) db
+
+/-- `DeleteExecutor` after the repairs: every selected row with a fresh `in_progress`, then the
+selected rows still present are deleted (found again by value / primary key) -/
+def deleteWithFksV (fks : List FkDecl) (fuel : Nat) (db : Db) (t : Nat) (sel : Row → Bool) : Except CErr Db :=
+  let victims := (db t).filter sel
+  match runVictimsV (fun _ db v => checkRowV fks fuel [] db t v) victims [] db with
+  | .error e => .error e
+  | .ok (db1, _) => .ok (db1.set t ((db1 t).filter (fun r => !(victims.contains r))))
+
+end VibeProof.Dml
